@@ -296,7 +296,21 @@ func c09run(c *mon.Ctx, pool *c09pool, cs c09case, rng *rand.Rand) {
 				res = pts[j]
 				pts[j] = snapP[j]
 			} else {
-				_, err = res.MultiExp(pts, ls, banderwagon.MultiExpConfig{NbTasks: cs.tasks, ScalarsMont: cs.mont})
+				var ret *banderwagon.Element
+				ret, err = res.MultiExp(pts, ls, banderwagon.MultiExpConfig{NbTasks: cs.tasks, ScalarsMont: cs.mont})
+				// the returned pointer is the caller's accumulator: if it is not the receiver, its value must be the result,
+				// and writing through it must touch nothing else (checked through the package-level elements below)
+				if err == nil && ret != &res {
+					if ret == nil || *ret != res {
+						c.Fail("returned-pointer-differs-from-receiver/Element.MultiExp", fmt.Sprintf("Element.MultiExp (n=%d) returned a pointer to an element other than its result", cs.n), nil)
+					}
+					if ret != nil {
+						*ret = pool.el[0]
+					}
+				}
+			}
+			if msg := constantsChanged(); msg != "" {
+				c.Fail("package-constant-modified/Element.MultiExp", msg+fmt.Sprintf(" during Element.MultiExp (n=%d) or when the caller wrote through the pointer it returned", cs.n), nil)
 			}
 		} else {
 			res, err = ipa.MultiScalar(pts, ls)
